@@ -41,16 +41,28 @@ Enabled(c) == {i \in 1..NSt(c) : ~St(c)[i].nop /\ CondHolds(St(c)[i].guard, val)
 
 TheRun == Run(TreeOf(cid), val, <<>>)
 
+\* the executions of statement i, in order, as iteration vectors
+ItersOf(i) == LET pos == {p \in DOMAIN TheRun : TheRun[p][1] = i}
+                  RECURSIVE Collect(_)
+                  Collect(p) == IF p > Len(TheRun) THEN <<>>
+                                ELSE IF p \in pos THEN <<LoopIter(TheRun[p][2])>> \o Collect(p + 1) ELSE Collect(p + 1)
+              IN Collect(1)
+\* one execution of a statement with k loops = its 2^k iteration vectors, each once, in lexicographic order
+RECURSIVE FullNest(_)
+FullNest(k) == IF k = 0 THEN << <<>> >>
+               ELSE LET r == FullNest(k - 1) IN
+                    [j \in 1..(2 * Len(r)) |-> IF j <= Len(r) THEN <<1>> \o r[j] ELSE <<2>> \o r[j - Len(r)]]
+
 ExactlyEnabledOnceStrict ==
     (Cases[cid].err = "" /\ Ready) =>
         LET ids == LeafIds(TheRun) IN
-          /\ \A i, j \in DOMAIN ids : i # j => ids[i] # ids[j]
           /\ SeqSet(ids) = Enabled(cid)
+          /\ \A i \in Enabled(cid) : ItersOf(i) = FullNest(Len(St(cid)[i].loops))
 
 LoopsAsDeclaredStrict ==
     (Cases[cid].err = "" /\ Ready) =>
         \A p \in DOMAIN TheRun :
-            TheRun[p][1] \in 1..NSt(cid) => TheRun[p][2] = St(cid)[TheRun[p][1]].loops
+            TheRun[p][1] \in 1..NSt(cid) => LoopDecl(TheRun[p][2]) = St(cid)[TheRun[p][1]].loops
 
 DepsRespectedStrict ==
     (Cases[cid].err = "" /\ Ready) =>
